@@ -222,6 +222,19 @@ def sib5(ctx, pid):
         ctx.bad(c, f.loc(), "no bit test found in the descent loop")
     else:
         ctx.ok(c, f.loc(), "MSB first; bit set -> go right, collect the left sibling; bit clear -> go left, collect the right sibling")
+    # what _get hands back as the value is what the db holds under the hash the walk ended at - not a function of it
+    # (`stored or default` turns a stored b"" into the default while the tree still commits to keccak(b""))
+    vals = set()
+    for p, st in pq.states(ctx, f, unroll=1):
+        if p.exit[0] == "return" and st.ret is not None:
+            r = st.ret
+            vals.add(r[1][0] if r[0] == "tuple" and len(r[1]) == 2 else r)
+    okv = bool(vals) and all(v[0] == "sub" and v[1] == ("attr", ("self",), "db") for v in vals)
+    if okv:
+        ctx.ok("leaf-read:SparseMerkleTree._get", f.loc(), "the value returned is the db entry under the hash the walk ended at", rule="PROV10")
+    else:
+        ctx.bad("leaf-read:SparseMerkleTree._get", f.loc(), "_get hands back `%s` as the value, expected the db entry under the leaf hash unchanged"
+                % "; ".join(tstr(v)[:60] for v in sorted(vals, key=str)[:2]), rule="PROV10")
     # ---- set / calc_root (leaf -> root)
     for q in (SMT + ".set", "trie.smt:calc_root"):
         f = ctx.P.func(q)
